@@ -1010,4 +1010,43 @@ theorem crun_inv (cfg : Config) (acts : List Act) (seen : List Act) (s : CState)
       · exact g2 e h r hr
 
 
+theorem udpLoop_timeout_now (dl : Nat) (evs : List UdpEv) (o : UdpOut)
+    (h : (udpLoop dl o evs).why = .timeout) : (udpLoop dl o evs).now = dl := by
+  induction evs generalizing o with
+  | nil => simp [udpLoop]
+  | cons ev rest ih =>
+    cases ev with
+    | silence => simp [udpLoop]
+    | readErr dt =>
+      unfold udpLoop at h ⊢
+      split
+      · rfl
+      · rename_i hh; simp only [hh, if_false] at h; exact ih _ h
+    | dgram dt fs w =>
+      unfold udpLoop at h ⊢
+      split
+      · rfl
+      · rename_i hh
+        simp only [hh, if_false] at h
+        dsimp only at h ⊢
+        cases fs with
+        | false => simp only [Bool.not_false, if_true] at h ⊢; exact ih _ h
+        | true =>
+          simp only [Bool.not_true, Bool.false_eq_true, if_false] at h ⊢
+          cases hp : parseMsg o.b (o.now + dt) w true with
+          | mk b' r =>
+            simp only [hp] at h ⊢
+            cases r with
+            | none => simp at h
+            | some hd =>
+              dsimp only at h ⊢
+              by_cases htc : hd.tc = true
+              · simp [htc] at h
+              · simp only [htc, Bool.false_eq_true, if_false] at h ⊢
+                by_cases hdn : b'.isDone = true
+                · simp [hdn] at h
+                · simp only [hdn, Bool.false_eq_true, if_false] at h ⊢
+                  exact ih _ h
+
+
 end SSV.Dns
